@@ -1257,7 +1257,12 @@ func (e *Engine) scanObligations(p string) []*Obligation {
 					if name == "" {
 						continue
 					}
-					if name == r.Callee || (r.Pkg != "" && name == r.Pkg+"::"+r.Callee) {
+					if r.Within {
+						if pk := e.pkgOf(f); pk == nil || pk.Pkg.Path() != r.Pkg {
+							continue
+						}
+					}
+					if name == r.Callee || (!r.Within && r.Pkg != "" && name == r.Pkg+"::"+r.Callee) {
 						sites++
 						if !allowed[e.funcKey(f)] {
 							bad = append(bad, fmt.Sprintf("%s at %s", e.funcKey(f), posString(e.fset, ins.Pos())))
